@@ -11,7 +11,8 @@ package main
 //     the id of a text is the index of its op; it is written into the description statement.
 //
 //   findfile <tree> <cwd> <path> <name>
-//       tree  (<entry>,<entry>,...)  entry = F<namehex> | D<namehex>(<entry>,...)   children of the temp root
+//       tree  (<entry>,<entry>,...)  entry = F<namehex> | L<namehex> | D<namehex>(<entry>,...)   children of the temp root
+//             (L = a symbolic link to a regular file kept outside the tree: for the chooser it is a file)
 //       cwd   comp/comp/... (hex) or "."          directory (below the root) the lookup runs in
 //       path  elem;elem;... or "-"                elem = comp/comp/... or ".", a trailing "+" appends "/..."
 //       name  hex
@@ -147,8 +148,10 @@ func c13Registry(toks []string) string {
 // ---- findfile ----
 
 type c13Parser struct {
-	s string
-	i int
+	s     string
+	i     int
+	store string // directory outside the layout holding the targets of the symbolic links
+	n     int
 }
 
 // entries parses "(" entry { "," entry } ")" or "()" and creates them below dir; rel = hex components so far.
@@ -158,7 +161,7 @@ func (p *c13Parser) entries(dir string, rel []string) {
 	}
 	p.i++
 	for p.s[p.i] != ')' {
-		k := p.s[p.i]
+		kind := p.s[p.i]
 		p.i++
 		j := p.i
 		for p.i < len(p.s) && strings.IndexByte("(),", p.s[p.i]) < 0 {
@@ -168,8 +171,8 @@ func (p *c13Parser) entries(dir string, rel []string) {
 		name := string(unhex(hx))
 		full := filepath.Join(dir, name)
 		r := append(append([]string{}, rel...), hx)
-		switch k {
-		case 'F':
+		switch kind {
+		case 'F', 'L':
 			// the module inside carries the name the file name announces (its leading letters)
 			k := 0
 			for k < len(name) && name[k] >= 'a' && name[k] <= 'z' {
@@ -180,11 +183,20 @@ func (p *c13Parser) entries(dir string, rel []string) {
 				mod = name[:k]
 			}
 			txt := fmt.Sprintf("module %s { namespace \"urn:x\"; prefix p; description \"%s\"; }", mod, strings.Join(r, "/"))
-			if err := os.WriteFile(full, []byte(txt), 0o644); err != nil {
+			if kind == 'L' {
+				p.n++
+				target := filepath.Join(p.store, fmt.Sprintf("t%d", p.n))
+				if err := os.WriteFile(target, []byte(txt), 0o644); err != nil {
+					panic(err)
+				}
+				if err := os.Symlink(target, full); err != nil {
+					panic(err)
+				}
+			} else if err := os.WriteFile(full, []byte(txt), 0o644); err != nil {
 				panic(err)
 			}
 		case 'D':
-			if err := os.Mkdir(full, 0o755); err != nil {
+			if err := os.MkdirAll(full, 0o755); err != nil {
 				panic(err)
 			}
 			p.entries(full, r)
@@ -217,7 +229,12 @@ func c13FindFile(toks []string) string {
 		panic(err)
 	}
 	defer os.RemoveAll(root)
-	(&c13Parser{s: toks[0]}).entries(root, nil)
+	store, err := os.MkdirTemp("", "c13st")
+	if err != nil {
+		panic(err)
+	}
+	defer os.RemoveAll(store)
+	(&c13Parser{s: toks[0], store: store}).entries(root, nil)
 
 	ms := yang.NewModules()
 	if toks[2] != "-" {
@@ -260,7 +277,53 @@ func c13FindFile(toks []string) string {
 	}
 }
 
+// findtwice <treeA> <treeB> <cwd> <path> <name>: FindModule of an import of <name> on layout A, then the entries of
+// B are added to the layout and the same Modules is asked again -> "<first> <second>"
+func c13FindTwice(toks []string) string {
+	if len(toks) != 5 {
+		return "bad-case"
+	}
+	root, err := os.MkdirTemp("", "c13ff")
+	if err != nil {
+		panic(err)
+	}
+	defer os.RemoveAll(root)
+	store, err := os.MkdirTemp("", "c13st")
+	if err != nil {
+		panic(err)
+	}
+	defer os.RemoveAll(store)
+	pr := &c13Parser{s: toks[0], store: store}
+	pr.entries(root, nil)
+	ms := yang.NewModules()
+	if toks[3] != "-" {
+		for _, e := range strings.Split(toks[3], ";") {
+			dots := strings.HasSuffix(e, "+")
+			d := c13Comps(root, strings.TrimSuffix(e, "+"))
+			if dots {
+				d += "/..."
+			}
+			ms.Path = append(ms.Path, d)
+		}
+	}
+	old, err := os.Getwd()
+	if err != nil {
+		panic(err)
+	}
+	if err := os.Chdir(c13Comps(root, toks[2])); err != nil {
+		panic(err)
+	}
+	defer os.Chdir(old)
+	name := string(unhex(toks[4]))
+	first := c13Desc(ms.FindModule(&yang.Import{Name: name}))
+	pr.s, pr.i = toks[1], 0
+	pr.entries(root, nil)
+	second := c13Desc(ms.FindModule(&yang.Import{Name: name}))
+	return first + " " + second
+}
+
 func init() {
+	handlers["findtwice"] = c13FindTwice
 	handlers["registry"] = c13Registry
 	handlers["findfile"] = c13FindFile
 }
